@@ -113,6 +113,14 @@ func exchangePub(ctx context.Context, logger log.Logger, selfPubc chan interface
 						reportErr(ctx, errc, err)
 						return
 					}
+					// a key for index i counts only if member i announced it: anybody could otherwise
+					// take another member's place in this member's view of the group
+					if pubkey == nil || pubkey.Publickey == nil || int(pubkey.Index) >= len(groupIds) ||
+						!bytes.Equal(pubkey.Publickey.SenderId, groupIds[pubkey.Index]) {
+						err := &DKGError{err: errors.Errorf("exchangePub failed for GID %s : %w", sessionID, ErrForeignPubKey)}
+						reportErr(ctx, errc, err)
+						return
+					}
 					partPubs = append(partPubs, pubkey)
 				}
 			}
